@@ -35,19 +35,20 @@ import (
 )
 
 type config struct {
-	Mode      string `json:"mode"`
-	Format    string `json:"format"`
-	Minify    string `json:"minify"`
-	Banner    bool   `json:"banner"`
-	Root      bool   `json:"root"`
-	Content   bool   `json:"content"`
-	Sm        string `json:"sm"`
-	Names     string `json:"names"`
-	Compose   bool   `json:"compose"`
-	Kind      string `json:"kind"`
-	CanShift  bool   `json:"canShift"`
-	Rebasable bool   `json:"rebasable"`
-	OneLine   bool   `json:"oneLine"`
+	Mode        string `json:"mode"`
+	Format      string `json:"format"`
+	Minify      string `json:"minify"`
+	Banner      bool   `json:"banner"`
+	Root        bool   `json:"root"`
+	Content     bool   `json:"content"`
+	Sm          string `json:"sm"`
+	Names       string `json:"names"`
+	Compose     bool   `json:"compose"`
+	Kind        string `json:"kind"`
+	CanShift    bool   `json:"canShift"`
+	Rebasable   bool   `json:"rebasable"`
+	OneLine     bool   `json:"oneLine"`
+	RebasableIn bool   `json:"rebasableIn"`
 }
 
 type layoutTuple struct {
@@ -62,6 +63,9 @@ type scenario struct {
 	UTF8    bool     `json:"utf8"`              // charset=utf8: non-ASCII characters stay raw in the generated code
 	Special string   `json:"special,omitempty"` // replayed model counterexample
 	BannerX string   `json:"bannerText,omitempty"`
+	Pattern []string `json:"pattern,omitempty"` // input-map family: "P"/"I" per file in output order (deps, entry)
+	InMaps  []inMap  `json:"inmaps,omitempty"`  // one descriptor per position (zero value for "P")
+	Family  string   `json:"family,omitempty"`  // "", "inmap", "css", "ts"
 }
 
 func (s scenario) name() string {
@@ -70,7 +74,14 @@ func (s scenario) name() string {
 	if s.UTF8 {
 		u = "/utf8"
 	}
-	return fmt.Sprintf("%s/%s/min-%s/b%v/r%v/c%v/%s/%s/x%v/%s%s%s", c.Mode, c.Format, c.Minify, c.Banner, c.Root, c.Content, c.Sm, c.Names, c.Compose, strings.Join(s.Layouts, "+"), u, s.Special)
+	x := ""
+	if len(s.Pattern) > 0 {
+		x = "/" + strings.Join(s.Pattern, "") + "/" + inmapCodes(s.InMaps)
+	}
+	if s.Family != "" && s.Family != "inmap" {
+		x += "/" + s.Family
+	}
+	return fmt.Sprintf("%s/%s/min-%s/b%v/r%v/c%v/%s/%s/x%v/%s%s%s%s", c.Mode, c.Format, c.Minify, c.Banner, c.Root, c.Content, c.Sm, c.Names, c.Compose, strings.Join(s.Layouts, "+"), u, s.Special, x)
 }
 
 func (s scenario) key(kind string) map[string]interface{} {
@@ -79,6 +90,13 @@ func (s scenario) key(kind string) map[string]interface{} {
 		"content": c.Content, "sm": c.Sm, "names": c.Names, "compose": c.Compose, "layouts": strings.Join(s.Layouts, "+"), "utf8": s.UTF8}
 	if s.Special != "" {
 		k["special"] = s.Special
+	}
+	if len(s.Pattern) > 0 {
+		k["pattern"] = strings.Join(s.Pattern, "")
+		k["inmaps"] = inmapCodes(s.InMaps)
+	}
+	if s.Family != "" {
+		k["family"] = s.Family
 	}
 	return k
 }
@@ -94,6 +112,9 @@ type job struct {
 	Aliases map[string]string      `json:"aliases,omitempty"`
 	Bundle  *codeMap               `json:"bundle,omitempty"`
 	Alone   []aloneBuild           `json:"alone,omitempty"`
+	Inter   []interInfo            `json:"inter,omitempty"`
+	Groups  []sourceGroup          `json:"groups,omitempty"`
+	Renamed []string               `json:"renamed,omitempty"`
 	scen    *scenario
 	out     string
 }
@@ -104,9 +125,10 @@ type codeMap struct {
 }
 
 type aloneBuild struct {
-	Source string `json:"source"`
-	Code   string `json:"code"`
-	Map    string `json:"map"`
+	Source  string   `json:"source"`
+	Sources []string `json:"sources"` // the file's own sources in order (one entry without an input map)
+	Code    string   `json:"code"`
+	Map     string   `json:"map"`
 }
 
 type jobError struct {
@@ -215,11 +237,22 @@ func runScenario(r *core.Run, sc *scenario) *built {
 	defer os.RemoveAll(root)
 	m := &markers{}
 	var files []genFile
+	var inm *inmapFiles
 	lay := func(i int) string { return sc.Layouts[i%len(sc.Layouts)] }
 	switch c.Mode {
 	case "transform":
 		files = append(files, makeFile(m, fileSpec{name: "f0.js", layout: lay(0)}))
 	case "bundle":
+		if len(sc.Pattern) > 0 {
+			inm = materialiseInmap(r, sc, root, src, m)
+			res.nBuilds += inm.nBuilds
+			if inm.infra != "" {
+				res.infra = inm.infra
+				return res
+			}
+			files = inm.files
+			break
+		}
 		n := len(sc.Layouts)
 		var deps []genFile
 		for i := 1; i < n; i++ {
@@ -254,7 +287,19 @@ func runScenario(r *core.Run, sc *scenario) *built {
 	origText := map[string]string{}
 	disk := map[string]string{}
 	composeIdx := -1
-	if c.Compose {
+	if inm != nil {
+		for k, v := range inm.aliases {
+			aliases[k] = v
+		}
+		for k, v := range inm.disk {
+			disk[k] = v
+		}
+		for k, v := range inm.origText {
+			origText[k] = v
+		}
+		files = nil // nothing else to materialise
+	}
+	if c.Compose && inm == nil {
 		composeIdx = len(files) - 1
 		if c.Mode == "split" {
 			composeIdx = 2 // shared.js
@@ -290,6 +335,14 @@ func runScenario(r *core.Run, sc *scenario) *built {
 		}
 	}
 	res.replay = map[string]interface{}{"scenario": sc, "files": disk, "firstPass": firstPass}
+	groupOf := map[string][]string{} // stage-2 file name -> its sources in the final map
+	if inm != nil {
+		files = inm.files
+		res.replay["firstPass"] = inm.firstPass
+		for _, g := range inm.groups {
+			groupOf[g.File] = g.Sources
+		}
+	}
 	minWS, minID, minSyn, banner, footer, sroot, scontent, smode := applyCommon(c, sc.BannerX)
 	charset := api.CharsetDefault
 	if sc.UTF8 {
@@ -301,6 +354,10 @@ func runScenario(r *core.Run, sc *scenario) *built {
 			e["sourceRoot"] = sourceRoot
 		} else {
 			e["sourceRoot"] = nil
+		}
+		if inm != nil {
+			e["groups"] = inm.groups
+			e["nullContent"] = inm.nullOK
 		}
 		return e
 	}
@@ -318,6 +375,10 @@ func runScenario(r *core.Run, sc *scenario) *built {
 	}
 	addJob := func(out, code, mp string, fl map[string]string) {
 		j := &job{ID: fmt.Sprintf("%d:%s", sc.ID, out), Code: code, Map: mp, Files: fl, Expect: expect(), Aliases: aliases, scen: sc, out: out}
+		if inm != nil {
+			j.Inter = inm.inters
+			j.Renamed = inm.renamed
+		}
 		res.jobs = append(res.jobs, j)
 	}
 	canon := func(mp string) string {
@@ -506,8 +567,15 @@ func runScenario(r *core.Run, sc *scenario) *built {
 		}
 	}
 	// re-basing relation: every non-entry file is also bundled alone with the same options
-	if c.Rebasable && len(files) > 1 && len(jsFiles) == 1 {
+	if (c.Rebasable || (inm != nil && c.RebasableIn)) && len(files) > 1 && len(jsFiles) == 1 {
 		rj := &job{ID: fmt.Sprintf("%d:rebase", sc.ID), Kind: "rebase", Bundle: &codeMap{Code: mainCode, Map: mainMap}, scen: sc, out: "rebase"}
+		if inm != nil {
+			rj.Groups = inm.groups
+		} else {
+			for _, f := range files {
+				rj.Groups = append(rj.Groups, sourceGroup{File: f.spec.name, Sources: []string{"../src/" + f.spec.name}})
+			}
+		}
 		for _, f := range files[1:] {
 			ar := build(api.SourceMapExternal, []string{"src/" + f.spec.name})
 			if len(ar.Errors) > 0 {
@@ -522,7 +590,11 @@ func runScenario(r *core.Run, sc *scenario) *built {
 				}
 			}
 			if ac != "" && am != "" {
-				rj.Alone = append(rj.Alone, aloneBuild{Source: "../src/" + f.spec.name, Code: ac, Map: am})
+				ab := aloneBuild{Source: "../src/" + f.spec.name, Sources: []string{"../src/" + f.spec.name}, Code: ac, Map: am}
+				if g, ok := groupOf[f.spec.name]; ok {
+					ab.Sources = g
+				}
+				rj.Alone = append(rj.Alone, ab)
 			}
 		}
 		if len(rj.Alone) > 0 {
@@ -533,11 +605,12 @@ func runScenario(r *core.Run, sc *scenario) *built {
 }
 
 type recVerdict struct {
-	I    int  `json:"i"`
-	OK   bool `json:"ok"`
-	Want int  `json:"want"`
-	Got  int  `json:"got"`
-	Diff int  `json:"diff"`
+	I     int  `json:"i"`
+	OK    bool `json:"ok"`
+	Want  int  `json:"want"`
+	Got   int  `json:"got"`
+	Diff  int  `json:"diff"`
+	SrcOK bool `json:"srcok"`
 }
 
 // validateRecords lets TLC run the spec's Join (LinkAll of SourceMap.tla) on the
@@ -577,7 +650,11 @@ func validateRecords(r *core.Run, recs []json.RawMessage, scens []*scenario) {
 			continue
 		}
 		sc := scens[v.I-1]
-		r.Violation(sc.key("join-spec"), fmt.Sprintf("the delta stream of the real bundle map differs from Join/LinkAll of SourceMap.tla applied to the recorded chunks (scenario %s; first difference at item %d; %d items expected, %d real)", sc.name(), v.Diff, v.Want, v.Got),
+		what := ""
+		if !v.SrcOK {
+			what = "; the real sources array / the files' source index bases differ from SourcesPass of SourceMap.tla on the real per-file source counts"
+		}
+		r.Violation(sc.key("join-spec"), fmt.Sprintf("the delta stream of the real bundle map differs from Join/LinkAll of SourceMap.tla applied to the recorded chunks (scenario %s; first difference at item %d; %d items expected, %d real%s)", sc.name(), v.Diff, v.Want, v.Got, what),
 			map[string]interface{}{"scenario": sc, "record": recs[v.I-1]})
 	}
 }
@@ -590,12 +667,13 @@ func Run(r *core.Run) {
 
 	// ---- design: TLC on the model -------------------------------------------
 	var wg sync.WaitGroup
-	designs := []string{"SourceMap.link.quick.cfg", "SourceMap.text.quick.cfg", "SourceMap.shift.cfg"}
+	designs := []string{"SourceMap.link.src.quick.cfg", "SourceMap.link.quick.cfg", "SourceMap.text.quick.cfg", "SourceMap.shift.cfg"}
 	if r.Thorough() {
 		designs = []string{"SourceMap.link.c2m2.cfg", "SourceMap.link.c3m1.cfg", "SourceMap.link.c3m3l0.cfg",
+			"SourceMap.link.src.c3m1.cfg", "SourceMap.link.src.c2m2.cfg",
 			"SourceMap.text.cfg", "SourceMap.shift.m3.cfg"}
 	}
-	if r.Replay != "" {
+	if r.Replay != "" || os.Getenv("C07_NODESIGN") != "" { // (the second: development aid, not used by the registered commands)
 		designs = nil
 	}
 	wg.Add(1)
@@ -626,6 +704,8 @@ func Run(r *core.Run) {
 	// ---- scenarios -------------------------------------------------------------
 	var configs []config
 	var layouts [][]string
+	var inmaps []inMap
+	var patterns [][]string
 	gres := tlcrun.MustHold(r, tlcrun.Options{Module: "SourceMapGen", Config: "SourceMapGen.cfg", Workers: 1, TimeoutSec: 1200, OnCase: func(raw []byte) {
 		var probe struct {
 			Kind string `json:"kind"`
@@ -643,15 +723,30 @@ func Run(r *core.Run) {
 			if json.Unmarshal(raw, &l) == nil {
 				layouts = append(layouts, l.Files)
 			}
+		} else if probe.Kind == "inmap" {
+			var d inMap
+			if json.Unmarshal(raw, &d) == nil {
+				inmaps = append(inmaps, d)
+			}
+		} else if probe.Kind == "pattern" {
+			var l layoutTuple
+			if json.Unmarshal(raw, &l) == nil {
+				patterns = append(patterns, l.Files)
+			}
 		}
 	}})
-	if gres == nil || len(configs) == 0 || len(layouts) == 0 {
+	if gres == nil || len(configs) == 0 || len(layouts) == 0 || len(inmaps) == 0 || len(patterns) == 0 {
 		r.Infra("no scenarios exported by SourceMapGen")
 		wg.Wait()
 		return
 	}
 	r.Set("configs_enumerated", len(configs))
 	r.Set("layout_tuples_enumerated", len(layouts))
+	r.Set("inmap_descriptors_enumerated", len(inmaps))
+	r.Set("inmap_patterns_enumerated", len(patterns))
+	// TLC prints sets in its own order; make the seeded draws independent of it
+	sort.Slice(inmaps, func(i, j int) bool { return inmaps[i].code() < inmaps[j].code() })
+	sort.Slice(patterns, func(i, j int) bool { return strings.Join(patterns[i], "") < strings.Join(patterns[j], "") })
 	// pairing: every configuration is built with perLayout layout tuples drawn by the
 	// seed; transform configurations only take single-file tuples
 	var single, multi [][]string
@@ -674,10 +769,39 @@ func Run(r *core.Run) {
 		}
 		scens = append(scens, sc)
 	}
+	// input-map family: a bundle configuration with compose = TRUE is paired with a
+	// position pattern and one descriptor per marked position; patterns and
+	// descriptors are dealt from seeded permutations, so that one run meets every
+	// pattern and spreads over the descriptors
+	var patPerm, inPerm []int
+	patNext, inNext := 0, 0
+	addInmapScen := func(c config) {
+		if patPerm == nil {
+			patPerm, inPerm = r.Rand.Perm(len(patterns)), r.Rand.Perm(len(inmaps))
+		}
+		pat := patterns[patPerm[patNext%len(patPerm)]]
+		patNext++
+		ds := make([]inMap, len(pat))
+		for k, x := range pat {
+			if x == "I" {
+				ds[k] = inmaps[inPerm[inNext%len(inPerm)]]
+				inNext++
+			}
+		}
+		id++
+		sc := &scenario{ID: id, Cfg: c, Layouts: multi[r.Rand.Intn(len(multi))], Pattern: pat, InMaps: ds, Family: "inmap"}
+		scens = append(scens, sc)
+	}
+	isInmapCfg := func(c config) bool { return c.Mode == "bundle" && c.Compose }
 	if r.Thorough() {
 		// every configuration: transform x 4 single-file layouts, bundle/split x 2
 		// multi-file tuples + 1 single-file tuple, drawn by the seed
 		for _, c := range configs {
+			if isInmapCfg(c) {
+				addInmapScen(c)
+				addInmapScen(c)
+				continue
+			}
 			if c.Mode == "transform" {
 				p := r.Rand.Perm(len(single))
 				for k := 0; k < 4; k++ {
@@ -693,7 +817,13 @@ func Run(r *core.Run) {
 	} else {
 		// quick: a seeded quarter of the configurations, one tuple each (about 280 scenarios)
 		for _, c := range configs {
-			if r.Rand.Intn(4) != 0 {
+			if isInmapCfg(c) {
+				if r.Rand.Intn(6) == 0 {
+					addInmapScen(c)
+				}
+				continue
+			}
+			if r.Rand.Intn(5) != 0 {
 				continue
 			}
 			if c.Mode == "transform" {
@@ -717,6 +847,15 @@ func Run(r *core.Run) {
 			return
 		}
 		scens = []*scenario{sc}
+	}
+	if fam := os.Getenv("C07_FAMILY"); fam != "" && r.Replay == "" { // development aid, not used by the registered commands
+		var keep []*scenario
+		for _, sc := range scens {
+			if sc.Family == fam {
+				keep = append(keep, sc)
+			}
+		}
+		scens = keep
 	}
 	r.Set("scenarios", len(scens))
 	r.Logf("%d configurations x %d layout tuples enumerated; %d scenarios to build", len(configs), len(layouts), len(scens))
@@ -760,6 +899,10 @@ func Run(r *core.Run) {
 			Results []jobResult `json:"results"`
 		}
 		in := map[string]interface{}{"jobs": jobs[lo:hi]}
+		if d := os.Getenv("C07_DUMP"); d != "" {
+			bs, _ := json.Marshal(in)
+			os.WriteFile(filepath.Join(d, fmt.Sprintf("jobs%d.json", b)), bs, 0644)
+		}
 		if err := nodex.Run(r, "smap_check.js", in, &out, 10*time.Minute, "", "--expose-internals", "--max-old-space-size=2048"); err != nil {
 			r.Infra("smap_check.js: %v", err)
 			return
